@@ -87,6 +87,16 @@ def replay_and_validate(run, behs, driver, driver_args, trace_module, trace_cfg,
             continue
         div = res["div"]
         events = vp.read_ndjson(trace)
+        if not div.get("at"):
+            # no divergence record: the trace specification has no enabled action for line hw (a precondition of the
+            # quantifier does not hold for the recorded operation). That is a mismatch between generator / driver and
+            # specification, not a behaviour of the code that the specification refutes: undecided, never a violation.
+            hw = res["hw"]
+            ev = events[hw - 1] if 0 < hw <= len(events) else {}
+            keep = os.path.join(vp.VERIF, ".work", "stuck-%s-%d.ndjson" % (run.pid, run.seed))
+            shutil.copy(trace, keep)
+            raise vp.Undecided("trace specification %s has no enabled action at line %d: %s (trace kept: %s)" % (
+                trace_module, hw, json.dumps({k: v for k, v in ev.items() if k not in ("obs", "robs", "cuts", "replica")})[:400], keep))
         at = div.get("at", 0)
         ev = events[at - 1] if 0 < at <= len(events) else {}
         tr = ev.get("tr")
